@@ -156,7 +156,8 @@ class C08(Prop):
         base = lang.gen_signal(rng, n=rng.randint(2, 7), start=Fr(0))
         sig = dict((k, [[float(t), rng.choice(lang.SMALL)] for (t, _) in base]) for k in names)
         return {'type': 'dense', 'formula': f, 'signals': sig, 'unit': rng.choice(['ms', 'us', 's']),
-                'mode': rng.choice(['default', 'both', 'same-suffix']), 'sseed': rng.randrange(1 << 30)}
+                'mode': rng.choice(['default', 'both', 'same-suffix', 'end-only', 'begin-only']),
+                'sseed': rng.randrange(1 << 30)}
 
     # ------------------------------------------------------------------------------------------
     def judge(self, case):
